@@ -279,25 +279,24 @@ func unpackBundleFileList(ctx context.Context, bundle *Bundle,
 	bundle.l.Info("preallocating bundle entries",
 		zap.Uint64("max entries", maxBundleEntries),
 	)
-	bundle.BundleEntries = make([]model.BundleEntry, maxBundleEntries)
+	bundle.BundleEntries = make([]model.BundleEntry, 0, maxBundleEntries)
+	fileLists := make([][]model.BundleEntry, bundle.BundleDescriptor.BundleEntriesFileCount)
 
 	var gotDoneSignal bool
 	for !gotDoneSignal {
 		select {
 		case res := <-bundleEntriesC:
-			startIdx := int(res.idx) * int(bundleEntriesPerFile)
-			copy(bundle.BundleEntries[startIdx:], res.bundleEntries.BundleEntries)
-			if res.idx+1 == bundle.BundleDescriptor.BundleEntriesFileCount {
-				missingEntries := int(bundleEntriesPerFile) - len(res.bundleEntries.BundleEntries)
-				if missingEntries < 0 {
-					return fmt.Errorf("%v is greater than expected number of bundle entries %v",
-						len(res.bundleEntries.BundleEntries), bundleEntriesPerFile)
-				}
-				bundle.BundleEntries = bundle.BundleEntries[:len(bundle.BundleEntries)-missingEntries]
-			} else if uint(len(res.bundleEntries.BundleEntries)) != bundleEntriesPerFile {
-				return fmt.Errorf("%v is not expected number of bundle entries %v",
+			if uint(len(res.bundleEntries.BundleEntries)) > bundleEntriesPerFile {
+				return fmt.Errorf("%v is greater than expected number of bundle entries %v",
 					len(res.bundleEntries.BundleEntries), bundleEntriesPerFile)
 			}
+			if res.idx >= uint64(len(fileLists)) {
+				return fmt.Errorf("%v is not an expected file list index (%v file lists)",
+					res.idx, len(fileLists))
+			}
+			// any file list may hold fewer entries than the maximum, not only the last one:
+			// entries may have been deleted from the bundle (DeleteEntriesFromRepo)
+			fileLists[res.idx] = res.bundleEntries.BundleEntries
 		case err := <-errorC:
 			bundle.l.Error("unpack bundle filelist failed", zap.Error(err))
 			return err
@@ -305,6 +304,12 @@ func unpackBundleFileList(ctx context.Context, bundle *Bundle,
 			gotDoneSignal = true
 		}
 	}
+
+	// entries come in the order of the file lists
+	for _, entries := range fileLists {
+		bundle.BundleEntries = append(bundle.BundleEntries, entries...)
+	}
+
 	return nil
 }
 
